@@ -10,7 +10,7 @@ from .common import state_jobs, decode_state
 
 INFO = {
     "bounds": {
-        "quick": "totality: templates T01-T12,T15 and repository fixtures, every user state inside the domain with the full malformed-number candidate lists (sampled partitions for large trees); cycles: every applicable back-edge kind (22 kinds) on every edge tree (29 forward kinds) = 354 mutants, enumerated (concrete programs, no symbolic input)",
+        "quick": "totality: templates T01-T12,T15, all edge trees and repository fixtures, every user state inside the domain with the full malformed-number candidate lists (sampled partitions for large trees); cycles: every applicable back-edge kind (22 kinds) on every edge tree (29 forward kinds) = 354 mutants, enumerated (concrete programs, no symbolic input)",
         "thorough": "same with more partitions, plus edge trees in the totality part",
     },
     "outside": ["trees outside the corpus", "cycles longer than forward edge + back edge", "the back-edge family is an enumeration of concrete programs, not a solver result"],
@@ -72,6 +72,7 @@ def jobs(tier, seed, excluded=()):
     temps = ["T01", "T02", "T03", "T04", "T05", "T06", "T07", "T08", "T09", "T10", "T11", "T12", "T15"]
     if tier == "quick":
         out = state_jobs("C09", "vk.props.c09", "total", temps + fixtures, dom, 100, 1, 100, rng)
+        out += state_jobs("C09", "vk.props.c09", "total", edges.ids(), dom, 60, 1, 100, rng)
     else:
         out = state_jobs("C09", "vk.props.c09", "total", temps + fixtures + edges.ids() + ["R%d" % (1000 * seed + j) for j in range(16)], dom, 500, 3, 400, rng)
     by_base = {}
